@@ -690,7 +690,7 @@ def ob_cache(ob, tier, seed):
 def ob_bulk(ob, tier, seed):
     from . import bulkw
     funcs, mir_s, mir_lines = dump_mir("akd")
-    res = bulkw.run_obligation(ob, tier, seed, funcs, "/repo")
+    res = (bulkw.run_wiring if ob.get("kind") == "bulkwiring" else bulkw.run_obligation)(ob, tier, seed, funcs, "/repo")
     res.setdefault("extra", {})["akd_mir_dump_s"] = mir_s
     if res["verdict"] == "fail":
         rp = run_native_bin("native_bulk")
@@ -719,7 +719,7 @@ def ob_glue(ob, tier, seed):
     return res
 
 
-RUNNERS = {"bulk": ob_bulk, "cache": ob_cache, "commit": ob_commit, "publish": ob_publish, "glue": ob_glue, "txn": ob_txn, "epochreads": ob_epochreads, "writer": ob_writer, "validate": ob_validate, "m1": ob_m1, "m2": ob_m2, "m4": ob_m4, "m5": ob_m5, "m6": ob_m6, "spec64": ob_spec64}
+RUNNERS = {"bulk": ob_bulk, "bulkwiring": ob_bulk, "cache": ob_cache, "commit": ob_commit, "publish": ob_publish, "glue": ob_glue, "txn": ob_txn, "epochreads": ob_epochreads, "writer": ob_writer, "validate": ob_validate, "m1": ob_m1, "m2": ob_m2, "m4": ob_m4, "m5": ob_m5, "m6": ob_m6, "spec64": ob_spec64}
 
 
 def run_obligation(ob, tier, seed):
